@@ -114,11 +114,20 @@ def random_mutant(rng, base):
 
 
 # ---- classification: bytes -> items of the server model ----------------------------------------------
+class Unsafe(Exception):
+    """the bytes would be handed to marshal.loads although they are not a payload marshal produced: a corrupted
+    length field of a tuple / list makes marshal allocate gigabytes before it fails (resource exhaustion inside an
+    external codec, see notes/C05.md) - such streams are not generated"""
+
+
 def classify_body(msg, fresh, bases):
     """item body tokens for a message recv_stub accepted, or None when it cannot be told"""
     from Pyro5 import serializers, protocol
     ser = serializers.serializers_by_id.get(msg.serializer_id)
     data = bytes(msg.data)
+    if msg.serializer_id == 3 and not (msg.type == 6 and not fresh) and not any(data == b["payload"] and b["ser"] == 3 for b in bases) \
+            and data[:1] and (data[0] & 0x7f) in b"([<>{":
+        raise Unsafe()
     if msg.type == 6 and not fresh:
         return ["U"]
     if ser is None:
@@ -303,7 +312,11 @@ class HistGen:
             bases.append(tail)
         ending = r.choice(["eof", "eof", "reset", "timeout"])
         gone = ending != "timeout" and r.random() < 0.35
-        items, checks = classify(data, ending, fresh, bases)
+        try:
+            items, checks = classify(data, ending, fresh, bases)
+        except Unsafe:
+            kind, data = "prefix", base["data"][:r.randrange(len(base["data"]))]
+            items, checks = classify(data, ending, fresh, [base])
         self.checks += checks
         acts.append(self.send(conn, data, ending, gone, items))
         acts[-1].append(kind)
